@@ -137,6 +137,10 @@ def reply_shape(ctx):
             raise AnchorMissing(f'no return in {name}')
         for r in rets:
             v = r.value
+            if isinstance(v, ast.Name):
+                ov = rd.origins_at(r, v)
+                if len(ov) == 1 and _tuple2(ov[0]):
+                    v = ov[0]
             # `return a, b if c else d` parses as a 2-tuple whose second element is a conditional
             if not _tuple2(v):
                 ctx.bad(f'{fi.qualname}:returns (value, qualifiers)', r,
